@@ -1,6 +1,9 @@
-// C33 correspondence harness for package dot/network (injected by `go test -overlay`).
+// C33 correspondence harness for package dot/network (injected by `go test -overlay`); inputs
+// of the kinds documented in props/C33/harness_messages_test.go are passed on to c33mRun.
 //
-// inputs:   dec <decoder> <kind> <hex bytes>      decoder: bam bah txm lreq lresp
+// inputs:   shape <decoder>                       -> the exported field names of the decoder's Go
+//                                                  destination type (verifc33.Names)
+//           dec <decoder> <kind> <hex bytes>      decoder: bam bah txm lreq lresp
 //           (kind = how the generator made the bytes: valid trail trunc flip subst rand hostile)
 // observables:
 //   ok <value text> <re1|re0|re~> <s|L> <t|T>  |  err <s|L> <t|T>  |  panic
@@ -37,6 +40,13 @@ var c33Descs = map[string]string{
 var c33Names = []string{"bam", "bah", "txm", "lreq", "lresp"}
 
 func c33Gen(r *vu.RNG, n int, emit func(string)) {
+	// 5/11 of the cases go to the decoders of dot/network/messages and dot/types
+	// (props/C33/harness_messages_test.go), the rest to the decoders of this package
+	c33mGen(r.Fork(), n*5/11, emit)
+	n -= n * 5 / 11
+	for _, name := range c33Names {
+		emit("shape " + name)
+	}
 	for _, name := range c33Names { // fixed corpus
 		for _, b := range [][]byte{nil, {0}, {1}, {0xff}, {0xff, 0xff, 0xff, 0xff}} {
 			emit("dec " + name + " rand " + vu.Hex(b))
@@ -101,7 +111,25 @@ func c33Decode(name string, in []byte) (text string, reenc []byte, hasRe bool, e
 
 func c33Run(in string) string {
 	f := strings.Split(in, " ")
-	if len(f) != 4 || f[0] != "dec" {
+	if f[0] == "shape" {
+		switch f[1] {
+		case "bam":
+			return vc.Names(BlockAnnounceMessage{})
+		case "bah":
+			return vc.Names(BlockAnnounceHandshake{})
+		case "lreq":
+			return vc.Names(request{})
+		case "lresp":
+			return vc.Names(response{})
+		case "txm":
+			return vc.Names(TransactionMessage{})
+		}
+		return c33mRun(in)
+	}
+	if f[0] != "dec" || (len(f) == 4 && (f[1] == "warp" || f[1] == "body")) {
+		return c33mRun(in)
+	}
+	if len(f) != 4 {
 		return "err:badinput"
 	}
 	data := vu.UnHex(f[3])
